@@ -11,6 +11,7 @@ import (
 	"strconv"
 	"strings"
 
+	"golang.org/x/tools/go/packages"
 	"golang.org/x/tools/go/ssa"
 
 	"verif/checker/core"
@@ -92,11 +93,15 @@ func checkFrontendAccessWidths(c *core.Ctx, rule string) {
 		return
 	}
 	// the checking helpers: functions of Compiler with a parameter list (base, constOffset, size) that return an address
-	isSetup := func(f *types.Func) bool {
-		n := f.Name()
-		return n == "memOpSetup" || n == "atomicMemOpSetup"
+	// anchored semantically: the methods that emit the out-of-bounds exit; those returning a value are the address
+	// helpers (plus wrappers that return the result of one), the others the range check of the bulk operations
+	setupFns, rangeFns := boundsHelpers(p)
+	if len(setupFns) == 0 || len(rangeFns) == 0 {
+		c.Undecided(rule, "bounds-checking helpers of the frontend", d.Pos(), "no method emitting ExitCodeMemoryOutOfBounds found (address helper / range check)")
+		return
 	}
-	isRange := func(f *types.Func) bool { return f.Name() == "boundsCheckInMemory" }
+	isSetup := func(f *types.Func) bool { return setupFns[f] }
+	isRange := func(f *types.Func) bool { return rangeFns[f] }
 	tags := switchTagVars(info, d.Body)
 	emitsAccess := func(n ast.Node) []string {
 		var out []string
@@ -140,12 +145,12 @@ func checkFrontendAccessWidths(c *core.Ctx, rule string) {
 				var bad []string
 				undec := false
 				for _, ac := range ev.calls {
-					if len(ac.args) < 3 || ac.args[2].val == nil {
+					if len(ac.args) < 2 || ac.args[len(ac.args)-1].val == nil {
 						undec = true
 						continue
 					}
-					if v, ok := constant.Int64Val(ac.args[2].val); !ok || int(v) != w {
-						bad = append(bad, fmt.Sprintf("%s passes %s at %s", core.ExprStr(ac.call.Fun), ac.args[2].val.String(), c.Pos(ac.call.Pos())))
+					if v, ok := constant.Int64Val(ac.args[len(ac.args)-1].val); !ok || int(v) != w {
+						bad = append(bad, fmt.Sprintf("%s passes %s at %s", core.ExprStr(ac.call.Fun), ac.args[len(ac.args)-1].val.String(), c.Pos(ac.call.Pos())))
 					}
 				}
 				switch {
@@ -1096,4 +1101,59 @@ func checkAddressWrapGuards(c *core.Ctx) {
 	if n == 0 {
 		c.Discharge("R02.9", "no 32-bit address arithmetic in front of an accessor", 0, "nothing to guard")
 	}
+}
+
+
+// boundsHelpers: the frontend methods that emit the out-of-bounds exit. setup = those with a result (the access
+// address) and the wrappers returning the result of one; rng = those without a result (range check of bulk operations).
+func boundsHelpers(p *packages.Package) (setup, rng map[*types.Func]bool) {
+	info := p.TypesInfo
+	setup, rng = map[*types.Func]bool{}, map[*types.Func]bool{}
+	decls := map[*types.Func]*ast.FuncDecl{}
+	core.AllFuncDecls(p, func(fd *ast.FuncDecl) {
+		if f, ok := info.Defs[fd.Name].(*types.Func); ok {
+			decls[f] = fd
+		}
+	})
+	for f, fd := range decls {
+		emits := false
+		ast.Inspect(fd.Body, func(x ast.Node) bool {
+			if se, ok := x.(*ast.SelectorExpr); ok && se.Sel.Name == "ExitCodeMemoryOutOfBounds" {
+				emits = true
+			}
+			return true
+		})
+		if !emits {
+			continue
+		}
+		if f.Type().(*types.Signature).Results().Len() > 0 {
+			setup[f] = true
+		} else {
+			rng[f] = true
+		}
+	}
+	// wrappers: call a setup helper and have a result of the same type
+	for changed := true; changed; {
+		changed = false
+		for f, fd := range decls {
+			if setup[f] || f.Type().(*types.Signature).Results().Len() != 1 {
+				continue
+			}
+			calls := false
+			ast.Inspect(fd.Body, func(x ast.Node) bool {
+				if call, ok := x.(*ast.CallExpr); ok {
+					if g := core.Callee(info, call); g != nil && setup[g] {
+						calls = true
+					}
+				}
+				return true
+			})
+			// only thin wrappers with the (base, offset, size) shape
+			if calls && f.Type().(*types.Signature).Params().Len() == 3 {
+				setup[f] = true
+				changed = true
+			}
+		}
+	}
+	return
 }
